@@ -507,6 +507,8 @@ fn check_stmt_requires_semicolon(
 
 /// Formats a block node. Note: the given shape to the block formatter should already be at the correct indentation level
 pub fn format_block(ctx: &Context, block: &Block, shape: Shape) -> Block {
+    #[cfg(feature = "verif-hooks")]
+    crate::verif_hooks::tick();
     let mut ctx = *ctx;
     let mut formatted_statements: Vec<(Stmt, Option<TokenReference>)> = Vec::new();
     let mut found_first_stmt = false;
